@@ -1957,7 +1957,13 @@ func (db *DB) CommitJournal(ctx context.Context, mode JournalMode) (err error) {
 	var commit uint32
 	if _, err := dbFile.Seek(SQLITE_DATABASE_SIZE_OFFSET, io.SeekStart); err != nil {
 		return fmt.Errorf("cannot seek to database size: %w", err)
-	} else if err := binary.Read(dbFile, binary.BigEndian, &commit); err != nil {
+	} else if err := binary.Read(dbFile, binary.BigEndian, &commit); err == io.EOF || err == io.ErrUnexpectedEOF {
+		// The database file has no header page, so nothing has been committed
+		// to it. This happens when the first transaction on a new database
+		// spills pages to disk and is then rolled back: SQLite truncates the
+		// file to zero length before finalizing the journal.
+		return db.invalidateJournal(mode)
+	} else if err != nil {
 		return fmt.Errorf("cannot read database size: %w", err)
 	}
 
